@@ -55,7 +55,7 @@ class Spec:
         return True
     def dump(self):
         if self.rect is None:
-            return "S-E-Z0,0h0w0e1R[]C[]U[]G[-/!]A[-,-,-,-]"
+            return "S-E-Z0,0h0w0e1R[]C[]U[]D[|]G[-/!]A[-,-,-,-]"
         a, b, c, d = self.rect
         h, w = c - a + 1, d - b + 1
         g = lambda i, j: self.m.get((a + i, b + j), 0)
@@ -63,7 +63,15 @@ class Spec:
         s += "R[" + ";".join(",".join(str(g(i, j)) for j in range(w)) for i in range(h)) + "]"
         cells = [(i, j, g(i, j)) for i in range(h) for j in range(w)]
         s += "C[" + ",".join("%d:%d:%d" % t for t in cells) + "]"
-        s += "U[" + ",".join("%d:%d:%d" % t for t in cells if t[2] != 0) + "]"
+        used = [t for t in cells if t[2] != 0]
+        s += "U[" + ",".join("%d:%d:%d" % t for t in used) + "]"
+        def alternate(l):          # double-ended consumption: front, back, front, ...
+            l, out, front = list(l), [], True
+            while l:
+                out.append(l.pop(0) if front else l.pop())
+                front = not front
+            return out
+        s += "D[" + ",".join(["%d:%d:%d" % t for t in alternate(cells)] + ["|"] + ["%d:%d:%d" % t for t in alternate(used)]) + "]"
         pr = []
         for i in range(h + 1):
             for j in range(w + 1):
